@@ -1441,7 +1441,32 @@ run_quic_hp(imbh_run *r, const int idx)
         else if (it->cipher == IMB_CIPHER_ECB && (it->key.n == 16 || it->key.n == 32))
                 imb_quic_hp_aes_ecb(tmgr, k->enc, dst, src, (uint64_t) np,
                                     it->key.n == 16 ? IMB_KEY_128_BYTES : IMB_KEY_256_BYTES);
-        else
+        else if ((it->cipher == IMB_CIPHER_GCM && (it->key.n == 16 || it->key.n == 32) && it->iv.n == 12) ||
+                 (it->cipher == IMB_CIPHER_CHACHA20_POLY1305 && it->key.n == 32 && it->iv.n == 12)) {
+                /* QUIC AEAD: np packets cut from the item's message, same key / IV / AAD */
+                static uint8_t outb[32][96], tagb[32][16];
+                const void *ivs[32], *aads[32];
+                void *tags[32];
+                uint64_t lens[32];
+                const uint64_t plen = it->clen < 80 ? it->clen : 80;
+
+                for (int p = 0; p < np; p++) {
+                        src[p] = it->msg.p + it->coff;
+                        dst[p] = outb[p];
+                        tags[p] = tagb[p];
+                        ivs[p] = r->iv;
+                        aads[p] = r->aad;
+                        lens[p] = plen > (uint64_t) p ? plen - (uint64_t) p : 0;
+                }
+                add_public(outb, sizeof(outb));
+                add_public(tagb, sizeof(tagb));
+                if (it->cipher == IMB_CIPHER_GCM)
+                        imb_quic_aes_gcm(tmgr, k->enc_ptr, it->key.n == 16 ? IMB_KEY_128_BYTES : IMB_KEY_256_BYTES, IMB_DIR_ENCRYPT, dst,
+                                         src, lens, ivs, aads, it->aad.n, tags, 16, (uint64_t) np);
+                else
+                        imb_quic_chacha20_poly1305(tmgr, k->enc_ptr, IMB_DIR_ENCRYPT, dst, src, lens, ivs, aads, it->aad.n, tags,
+                                                   (uint64_t) np);
+        } else
                 r->skip = "unsupported";
 }
 
